@@ -751,6 +751,12 @@ func (w *World) classifyStuck(threads []*vrt.Thread, cutoff bool) {
 	if cutoff {
 		w.Outcome = "cutoff"
 	}
+	// a thread that waits for a mutex at the idle horizon waits forever: deadlock
+	for _, t := range threads {
+		if op := t.Pending(); op != nil && !t.IsEnabled() && !cutoff && (op.Kind == "lock" || op.Kind == "rlock") {
+			w.Outcome = "deadlock"
+		}
+	}
 	for _, t := range threads {
 		if op := t.Pending(); op != nil && !t.IsEnabled() {
 			w.Blocked = append(w.Blocked, fmt.Sprintf("t%d[%s] %s:%s", t.ID, t.Label, op.Kind, op.Tag))
